@@ -202,12 +202,14 @@ let derr_name = function
   | ESkip SkShort -> "skip-short" | ESkip SkDataLength -> "skip-datalength" | ESkip SkUnknownType -> "skip-unknowntype"
   | EUnknownType -> "unknowntype" | EInternal -> "internal"
 
-let field_name (u : uni) (sid : int) (id : n) : string =
-  let sd = List.nth u.env sid in
-  let rec go fs ns = match fs, ns with
-    | f :: fr, nm :: nr -> if f.fid = id then nm else go fr nr
-    | _ -> "?" in
-  go sd.sfields u.fnames.(sid)
+(* Go names of the fields with this id, in any struct of the universe (the
+   missing required field may belong to a nested struct) *)
+let field_names (u : uni) (id : n) : string list =
+  List.concat (List.mapi (fun sid sd ->
+    let rec go fs ns = match fs, ns with
+      | f :: fr, nm :: nr -> if f.fid = id then nm :: go fr nr else go fr nr
+      | _ -> [] in
+    go sd.sfields u.fnames.(sid)) u.env)
 
 (* compare a decode observation with the model's outcome *)
 let check_decode (u : uni) (v : verdict) (sid : int) (model : (val0 * n) dres) (obs : sx) (pfx : string) : unit =
@@ -223,16 +225,17 @@ let check_decode (u : uni) (v : verdict) (sid : int) (model : (val0 * n) dres) (
   | DErr e, L [A "err"; A cls; A msg] ->
       (match e with
        | ERequired id ->
-           let nm = field_name u sid id in
+           let nms = field_names u id in
            if cls <> "pe1" then fail v (pfx ^ "errclass") ("required: impl class " ^ cls);
-           if not (has_sub (string_of_hex msg) ("\"" ^ nm ^ "\"")) then
-             fail v (pfx ^ "errfield") (Printf.sprintf "required: model names %s, impl says %s" nm (string_of_hex msg))
+           if not (List.exists (fun nm -> has_sub (string_of_hex msg) ("\"" ^ nm ^ "\"")) nms) then
+             fail v (pfx ^ "errfield") (Printf.sprintf "required: model names field id %s, impl says %s" (string_of_n id) (string_of_hex msg))
        | EDepth | ESkip SkDepth -> if cls <> "pe6" then fail v (pfx ^ "errclass") ("depth: impl class " ^ cls)
        | _ -> ())
   | _, L (A "panic" :: A msg :: _) ->
       fail v "panic" ("impl panic: " ^ string_of_hex msg ^ (match model with DOk _ -> " (model ok)" | DErr e -> " (model " ^ derr_name e ^ ")" | DPanic -> " (model panic)" | DFuel -> " (model fuel)"))
   | DPanic, _ -> fail v "model-panic" "model reaches a panic outcome"
   | DFuel, _ -> fail v "model-fuel" "model ran out of fuel"
+  | _, L (A "crash" :: A msg :: _) -> fail v "crash" ("impl process died: " ^ string_of_hex msg)
   | _, _ -> fail v "harness" "unparsable observation"
 
 let sid_of (u : uni) (name : string) : int =
@@ -240,7 +243,10 @@ let sid_of (u : uni) (name : string) : int =
 
 let judge_case (u : uni) (case : sx) (obs : sx list) : verdict =
   let v = { tags = []; detail = [] } in
-  (match case with
+  (match obs with
+   | [L (A "crash" :: A msg :: _)] -> fail v "crash" ("impl process died: " ^ string_of_hex msg)
+   | _ ->
+  match case with
    | L (A "enc" :: A tname :: A _mode :: vx :: _) ->
        let sid = sid_of u tname in
        let nsid = n_of_int sid in
@@ -268,7 +274,7 @@ let judge_case (u : uni) (case : sx) (obs : sx list) : verdict =
         | L [A "sizepanic"; A m] :: _ -> fail v "corr-sizepanic" ("EncodedSize panicked: " ^ string_of_hex m)
         | L [A "size"; _] :: L (A "err" :: A cls :: A m :: _) :: _ -> fail v "corr-encerr" ("EncodeObject error " ^ cls ^ ": " ^ string_of_hex m)
         | L [A "size"; _] :: L (A "panic" :: A m :: _) :: _ -> fail v "panic" ("EncodeObject panicked: " ^ string_of_hex m)
-        | _ -> fail v "harness" "unparsable observation")
+        | _ -> fail v "harness" ("unparsable observation"))
    | L [A "encbuf"; A tname; A _mode; vx; A blen; A _spare] ->
        let sid = sid_of u tname in
        let nsid = n_of_int sid in
@@ -287,7 +293,7 @@ let judge_case (u : uni) (case : sx) (obs : sx list) : verdict =
             if need <= blen then fail v "prop-fit-rejected" (Printf.sprintf "buffer of %d rejected for a %d-byte message" blen need);
             if guard <> "guard-ok" then fail v "prop-guard" guard
         | L (A "panic" :: A m :: _) :: _ -> fail v "panic" ("EncodeObject panicked: " ^ string_of_hex m)
-        | _ -> fail v "harness" "unparsable observation")
+        | _ -> fail v "harness" ("unparsable observation"))
    | L [A "rt"; A tname; A _mode; vx] ->
        let sid = sid_of u tname in
        let nsid = n_of_int sid in
@@ -308,11 +314,12 @@ let judge_case (u : uni) (case : sx) (obs : sx list) : verdict =
                  if str_of_val (canon_val rv) <> str_of_val (canon_val (val_of_sx gv)) then
                    fail v "prop-rt-value" (Printf.sprintf "round trip: expected %s got %s" (str_of_val (canon_val rv)) (str_of_val (canon_val (val_of_sx gv))))
              | DOk _, _ -> fail v "prop-rt-fail" "round trip failed in the implementation"
+             | DErr (ERequired _), L (A "err" :: _) -> ()   (* value lacks a required nested struct: both reject *)
              | _, _ -> fail v "model-rt-fail" "model round trip fails")
         | L [A "sizepanic"; A m] :: _ -> fail v "corr-sizepanic" ("EncodedSize panicked: " ^ string_of_hex m)
         | [L [A "size"; _]; L (A "err" :: A cls :: A m :: _)] -> fail v "corr-encerr" ("EncodeObject error " ^ cls ^ ": " ^ string_of_hex m)
         | [L [A "size"; _]; L (A "panic" :: A m :: _)] -> fail v "panic" ("EncodeObject panicked: " ^ string_of_hex m)
-        | _ -> fail v "harness" "unparsable observation")
+        | _ -> fail v "harness" ("unparsable observation"))
    | L [A "dec"; A tname; dst; A hx] ->
        let sid = sid_of u tname in
        let nsid = n_of_int sid in
@@ -326,7 +333,7 @@ let judge_case (u : uni) (case : sx) (obs : sx list) : verdict =
         | dobs :: A same :: _ ->
             check_decode u v sid md dobs "corr-";
             if same <> "input-same" then fail v "prop-input-mutated" "DecodeObject modified its input"
-        | _ -> fail v "harness" "unparsable observation")
+        | _ -> fail v "harness" ("unparsable observation"))
    | _ -> fail v "harness" "unknown case");
   v
 
